@@ -76,8 +76,8 @@ var c36Bases = []c36Base{
 	{"context.Canceled", "excluded", func() error { return context.Canceled }},
 }
 
-var c36Forms = []string{"raw", "wrapped-%w"}
-var c36FormsThorough = []string{"raw", "wrapped-%w", "wrapped-twice", "errors.Join", "custom-Unwrap", "net.OpError", "url.Error"}
+var c36Forms = []string{"raw", "wrapped-%w", "net.OpError(wrapped-%w)"}
+var c36FormsThorough = []string{"raw", "wrapped-%w", "wrapped-twice", "errors.Join", "custom-Unwrap", "net.OpError", "url.Error", "net.OpError(wrapped-%w)", "url.Error(wrapped-%w)", "wrapped-%w(net.OpError(wrapped-%w))"}
 
 func c36Wrap(e error, form string) error {
 	switch form {
@@ -95,6 +95,13 @@ func c36Wrap(e error, form string) error {
 		return &net.OpError{Op: "dial", Net: "quic", Err: e}
 	case "url.Error":
 		return &url.Error{Op: "Get", URL: "https://tunnel/", Err: e}
+	// a net.Error whose own Timeout() only looks at its direct inner error, around an annotated error
+	case "net.OpError(wrapped-%w)":
+		return &net.OpError{Op: "dial", Net: "quic", Err: fmt.Errorf("handshake: %w", e)}
+	case "url.Error(wrapped-%w)":
+		return &url.Error{Op: "Get", URL: "https://tunnel/", Err: fmt.Errorf("round trip: %w", e)}
+	case "wrapped-%w(net.OpError(wrapped-%w))":
+		return fmt.Errorf("dial client: %w", &net.OpError{Op: "dial", Net: "quic", Err: fmt.Errorf("handshake: %w", e)})
 	}
 	panic("form " + form)
 }
